@@ -620,6 +620,11 @@ impl<'tcx> Cx<'tcx> {
                 jarr(o.out, gargs.iter(), |out, a| {
                     jstr(out, &with_no_trimmed_paths!(format!("{}", a)))
                 });
+                // declared names of the callee's generic parameters, in the order of `ga`
+                o.key("gn");
+                jarr(o.out, ty::GenericArgs::identity_for_item(tcx, *did).iter(), |out, a| {
+                    jstr(out, &with_no_trimmed_paths!(format!("{}", a)))
+                });
                 // parent (trait or impl) information
                 if let Some(parent) = tcx.opt_parent(*did) {
                     match tcx.def_kind(parent) {
